@@ -464,7 +464,9 @@ func (g *G) Email() string {
 }
 
 // BranchName draws from a small pool whose members are prefixes of each other.
-var branchPool = []string{"main", "a", "b", "a.b", "ab", "a-b", "dev", "b_1", "B", "main2", "ma", "z.9", ".wip", "b.", ".a", "_", "0", "a.tmp", "main.tmp", "b.lock", "a~", "w", "w ", " w", "Main", "HEAD", "W", "head", "Head"}
+var branchPool = []string{"main", "a", "b", "a.b", "ab", "a-b", "dev", "b_1", "B", "main2", "ma", "z.9", ".wip", "b.", ".a", "_", "0", "a.tmp", "main.tmp", "b.lock", "a~", "w", "w ", " w", "Main", "HEAD", "W", "head", "Head",
+	// the longest names a file system takes (255 bytes), and a name that is a 240-byte prefix of one of them
+	strings.Repeat("L", 240), strings.Repeat("L", 240) + "-abcdefghijklmn", strings.Repeat("L", 254) + "x"}
 
 func (g *G) BranchName() string { return g.Pick(branchPool, "branch") }
 
